@@ -60,6 +60,15 @@ def build(tier, seed):
     _host.__name__ = "host_block"
     tasks.append(a_task(PROP, _host))
     tasks.append(bounded_task())
+
+    def _cont():
+        # how continuation lines are joined decides the text of the statement the parser sees (blanks after a leading `&` inside a continued literal belong to the literal)
+        from bounded import c02
+        c = __import__("contracts.readerblocks", fromlist=["x"]).continuation(PROP)
+        c.search_fn = lambda: c02.search(seed)
+        return c
+    _cont.__name__ = "continuation_block"
+    tasks.append(a_task(PROP, _cont))
     # fixed-form sources reach the parser through convertToFree: what it does to continuation, comment and blank lines decides the entity tree of such a file (C14's stand-ins)
     tasks.append(standin_task(PROP, "reader.fixed_vs_free", lambda: __import__("bounded.c14", fromlist=["x"]).search(seed, keep_n=400), "ford.reader.FortranReader(fixed=True) = convertToFree + free-form reader",
                               "one token-level program rendered in fixed and in free form (continuation character, comment lines between continuation lines, labels, sequence field): same statements",
